@@ -71,9 +71,23 @@ fn gen(t: &mut Tape, tier: Tier) -> Scenario {
         ep = EP_C_LZMA;
         sc.set_i("rc_boundary", v);
     }
+    let mut force_mode: Option<u64> = None;
+    if t.below(if tier == Tier::Thorough { 200 } else { 60 }) == 0 {
+        // a range-coder body (the output minus its header) of exactly k * B bytes for
+        // the buffer sizes code likes to stage output in
+        let b = [256u64, 512, 4096, 8192, 16384, 65536][t.below(6) as usize];
+        let k = if b >= 16384 { 1 } else { t.range(1, 3) };
+        if let Some(p) = crate::rcsearch::plain_with_body_len(t.u64(), b * k) {
+            sc.set_i("body_len_target", b * k);
+            plain = p;
+            ep = EP_C_LZMA;
+            force_mode = Some(1 + t.below(2));
+        }
+    }
     let len = plain.len();
     sc.set_i("ep", ep);
-    sc.set_i("enc_mode", t.below(3));
+    let drawn_mode = t.below(3);
+    sc.set_i("enc_mode", force_mode.unwrap_or(drawn_mode));
     sc.set_i("enc_size", len as u64);
     sc.set_i("rk", [RK_SIM, RK_BUFREADER, RK_SLICE][t.below(3) as usize]);
     sc.set_i("bufcap", t.range(1, 70_000));
@@ -142,6 +156,13 @@ fn exec(sc: &Scenario, ctx: &mut Ctx) -> Vec<Violation> {
     }
     if ro.calls > 2 {
         ctx.stats.hit("probe.reader_fragmented_the_input");
+    }
+    if sc.has_i("body_len_target") && sc.i("ep") == EP_C_LZMA {
+        ctx.stats.hit("arm.compressed_body_length_aimed_at_a_multiple_of_a_buffer_size");
+        let hdr = if mode == 2 { 5 } else { 13 };
+        if packed.len() as u64 == sc.i("body_len_target") + hdr {
+            ctx.stats.hit("probe.compressed_body_is_exactly_the_aimed_multiple");
+        }
     }
     if sc.has_i("rc_boundary") {
         ctx.stats.hit("probe.range_encoder_low_exactly_on_a_boundary_at_a_shift");
@@ -261,7 +282,7 @@ fn wrap_lzma2_in_xz_23(payload: &[u8], content: &[u8]) -> Vec<u8> {
 pub static C04: SimpleProp = SimpleProp {
     id: "C04",
     level: "exploration",
-    rule: "one evaluation = one compression into a sink that accepts whole or (a third of the runs) scripted partial writes (lzma_compress with each of the 3 header options, lzma2_compress, xz_compress) of a plaintext (lengths 0, 1, 65535, 65536, 65537, 2-3 x 64 KiB, small random, and now and then 8 MiB + a little, i.e. longer than the dictionary the encoder announces; content: constant 0x00/0xFF, random, sparse, sawtooth, long runs with surprises, text-like, inputs constructed by a guided search so that a carry resolves >= 4 pending 0xFF bytes in the range encoder, and four embedded witnesses under which the encoder's low register is exactly 0xFEFFFFFF / 0xFF000000 / 0xFFFFFFFF / 0x100000000 when a byte is shifted out) read through scripted short reads (1 byte, fixed k, random) or a real BufReader of capacity 1..70000; the output must decode to the input with (a) lzma-rs under the matching option, consuming every emitted byte, (b) the strict reference decoder/parser, (c) liblzma (LZMA2 wrapped into .xz by the reference writer; the header-less layout excepted); non-trivial = non-empty plaintext; distinct by (scenario, event log) hash",
+    rule: "one evaluation = one compression into a sink that accepts whole or (a third of the runs) scripted partial writes (lzma_compress with each of the 3 header options, lzma2_compress, xz_compress) of a plaintext (lengths 0, 1, 65535, 65536, 65537, 2-3 x 64 KiB, small random, and now and then 8 MiB + a little, i.e. longer than the dictionary the encoder announces; content: constant 0x00/0xFF, random, sparse, sawtooth, long runs with surprises, text-like, inputs constructed by a guided search so that a carry resolves >= 4 pending 0xFF bytes in the range encoder, and plaintexts aimed at a compressed body of exactly k x {256..65536} bytes, and four embedded witnesses under which the encoder's low register is exactly 0xFEFFFFFF / 0xFF000000 / 0xFFFFFFFF / 0x100000000 when a byte is shifted out) read through scripted short reads (1 byte, fixed k, random) or a real BufReader of capacity 1..70000; the output must decode to the input with (a) lzma-rs under the matching option, consuming every emitted byte, (b) the strict reference decoder/parser, (c) liblzma (LZMA2 wrapped into .xz by the reference writer; the header-less layout excepted); non-trivial = non-empty plaintext; distinct by (scenario, event log) hash",
     runs_quick: 40_000,
     runs_thorough: 4_000_000,
     both_profiles: false,
